@@ -228,7 +228,17 @@ pub struct Ctx {
     pub notes: Vec<String>,
     pub exhaustive: BTreeMap<String, bool>,
     pub start: Instant,
+    /// thinned sample of executed events (with their measured cost in microseconds) kept for `run_mix`
+    mix: Vec<(Ev, u64)>,
+    mix_stride: u64,
+    mix_last: Option<Instant>,
+    /// set while `run_mix` re-executes events: violations raised then are marked as sequence-dependent
+    pub in_mix: bool,
 }
+
+/// events kept per context for the mixed re-execution
+pub const MIX_PER_CTX: usize = 512;
+pub const MIX_TOTAL: usize = 6000;
 
 impl Ctx {
     pub fn new(property: &str, tier: &str, profile: &str, seed: u64) -> Ctx {
@@ -250,6 +260,34 @@ impl Ctx {
             notes: Vec::new(),
             exhaustive: BTreeMap::new(),
             start: Instant::now(),
+            mix: Vec::new(),
+            mix_stride: 1,
+            mix_last: None,
+            in_mix: false,
+        }
+    }
+
+    fn mix_sample(&mut self, ev: &Ev) {
+        if self.in_mix {
+            return;
+        }
+        // the time since the previous sampled event was accounted is (an upper bound of) that event's cost
+        if let Some(t) = self.mix_last.take() {
+            if let Some(last) = self.mix.last_mut() {
+                last.1 = t.elapsed().as_micros() as u64;
+            }
+        }
+        if self.evaluations % self.mix_stride == 0 {
+            if self.mix.len() >= MIX_PER_CTX {
+                let mut k = 0usize;
+                self.mix.retain(|_| {
+                    k += 1;
+                    k % 2 == 0
+                });
+                self.mix_stride *= 2;
+            }
+            self.mix.push((ev.clone(), 0));
+            self.mix_last = Some(Instant::now());
         }
     }
 
@@ -281,6 +319,7 @@ impl Ctx {
             self.samples
                 .push(ev.to_json().set("cell", Json::s(cell)));
         }
+        self.mix_sample(ev);
     }
 
     /// Account an event by digest only (hot loops): no Ev is built unless it becomes a sample.
@@ -300,8 +339,15 @@ impl Ctx {
                 self.distinct_overflow += 1;
             }
         }
-        if take_sample {
-            self.samples.push(mk().to_json().set("cell", Json::s(cell)));
+        let take_mix = !self.in_mix && (self.mix_last.is_some() || self.evaluations % self.mix_stride == 0);
+        if take_sample || take_mix {
+            let ev = mk();
+            if take_sample {
+                self.samples.push(ev.to_json().set("cell", Json::s(cell)));
+            }
+            if take_mix {
+                self.mix_sample(&ev);
+            }
         }
     }
 
@@ -361,6 +407,11 @@ impl Ctx {
             let mut m: String = msg.chars().take(900).collect();
             m.push_str("...");
             m
+        } else {
+            msg
+        };
+        let msg = if self.in_mix {
+            format!("{} [raised during the mixed re-execution of sampled events: if the single-event replay holds, the result depends on the calls made before it]", msg)
         } else {
             msg
         };
@@ -437,6 +488,19 @@ impl Ctx {
         }
         for n in o.notes {
             self.note(n);
+        }
+        let mut om = o.mix;
+        if o.mix_last.is_some() {
+            // cost of the last sampled event unknown: drop it
+            om.pop();
+        }
+        self.mix.extend(om);
+        while self.mix.len() > MIX_TOTAL {
+            let mut k = 0usize;
+            self.mix.retain(|_| {
+                k += 1;
+                k % 2 == 0
+            });
         }
     }
 
@@ -601,6 +665,64 @@ where
     for c in results.into_inner().unwrap() {
         ctx.merge(c);
     }
+}
+
+/// Mixed re-execution (hidden-state monitor): a thinned sample of the events of all shards is executed again on
+/// ONE thread in shuffled order, so that calls of different sizes, types and operations follow each other, each
+/// third event twice in a row, then the whole list backwards.  Every event is judged by the same monitors as the
+/// first time (the oracle does not depend on history), so a result that depends on what was called before —
+/// memo tables, thread-local scratch, pooled state — shows up as an ordinary violation.  Events that took more
+/// than `MIX_EVENT_US` the first time are left out and the pass stops after a wall-clock budget (a budget stop
+/// only reduces how much was re-executed; it never changes a verdict).
+pub const MIX_EVENT_US: u64 = 20_000;
+
+pub fn run_mix<F>(ctx: &mut Ctx, seed: u64, mut f: F)
+where
+    F: FnMut(&mut Ctx, &Ev),
+{
+    let mut evs: Vec<Ev> = std::mem::take(&mut ctx.mix)
+        .into_iter()
+        .filter(|(_, us)| *us <= MIX_EVENT_US)
+        .map(|(e, _)| e)
+        .collect();
+    let mut rng = crate::rng::Rng::new(seed ^ 0x6d69_785f_7265_7865);
+    rng.shuffle(&mut evs);
+    let budget = std::cmp::max(
+        std::time::Duration::from_millis(1500),
+        ctx.start.elapsed() / if ctx.thorough() { 4 } else { 6 },
+    );
+    let t0 = Instant::now();
+    ctx.in_mix = true;
+    let mut done = 0u64;
+    let mut sizes: HashSet<usize> = HashSet::new();
+    let mut switches = 0u64;
+    let mut prev_n = usize::MAX;
+    'outer: for pass in 0..2 {
+        let order: Vec<usize> = if pass == 0 { (0..evs.len()).collect() } else { (0..evs.len()).rev().collect() };
+        for (k, i) in order.into_iter().enumerate() {
+            if t0.elapsed() > budget {
+                ctx.bump("mix:stopped-by-budget", 1);
+                break 'outer;
+            }
+            let ev = &evs[i];
+            f(ctx, ev);
+            done += 1;
+            if k % 3 == 0 {
+                f(ctx, ev);
+                done += 1;
+            }
+            sizes.insert(ev.n);
+            if ev.n != prev_n {
+                switches += 1;
+                prev_n = ev.n;
+            }
+        }
+    }
+    ctx.in_mix = false;
+    ctx.bump("mix:events-sampled", evs.len() as u64);
+    ctx.bump("mix:re-executions", done);
+    ctx.bump("mix:size-switches", switches);
+    ctx.bump("mix:distinct-sizes", sizes.len() as u64);
 }
 
 /// Verdict of a replayed event: prints what the monitors said; exit code 1 when a monitor fired.
